@@ -258,6 +258,13 @@ func c04StreamRunner(scenario string, L int64, ops []c04Op, known *c04Known) fun
 						fail("request-not-covered", "after %s: a read of %d is outstanding (%d still to read, %d delivered and unread) but the peer's window is %d < %d (%s)", op.name, reqN, reqRem, unread, W, need, fields())
 					}
 				}
+				// (e) back-pressure side of exact accounting: what the peer may still
+				// send plus what the application has not read yet never exceeds the
+				// configured window plus the remainder of an outstanding read request
+				// (the receiver never agrees to buffer more than it advertised).
+				if hi := cfg + reqRem; W+unread+padPending > hi {
+					fail("over-advertised", "after %s: peer window %d + %d unread (+%d padding) exceeds the configured window %d + outstanding read remainder %d (%s)", op.name, W, unread, padPending, cfg, reqRem, fields())
+				}
 				// (d1) no wedge
 				if unread == 0 && padPending == 0 {
 					if lo := cfg - c04Slack(cfg); W < lo {
